@@ -156,8 +156,8 @@ MUTANTS = [
     M("c14-cut-removed-after-macro-start", "C14",
       G("| proc_macro_start ~ a=(cmd_group | any_cmd )* { self.proc_macro_arg(a, LOCATIONS) }",
         "| proc_macro_start a=(cmd_group | any_cmd )* { self.proc_macro_arg(a, LOCATIONS) }",
-        "        cut = False\n        if (self.proc_macro_start()) and (cut := True) and (a := self.repeated(self._tmp_37),):\n            return self.proc_macro_arg(a, **self.span(_lnum, _col))\n        self._reset(mark)\n        if cut:\n            return None\n",
-        "        if (self.proc_macro_start()) and (a := self.repeated(self._tmp_37),):\n            return self.proc_macro_arg(a, **self.span(_lnum, _col))\n        self._reset(mark)\n"),
+        "        cut = False\n        if (self.proc_macro_start()) and (cut := True) and (a := self.repeated(self._tmp_38),):\n            return self.proc_macro_arg(a, **self.span(_lnum, _col))\n        self._reset(mark)\n        if cut:\n            return None\n",
+        "        if (self.proc_macro_start()) and (a := self.repeated(self._tmp_38),):\n            return self.proc_macro_arg(a, **self.span(_lnum, _col))\n        self._reset(mark)\n"),
       mention="M3"),
     M("c14-path-token-not-cleared", "C14",
       [(SUB, "            node = xonsh_call(\"__xonsh__.path_literal\", node, **path_tok.loc())\n            self._path_token = None\n",
